@@ -32,7 +32,7 @@ RULE = (
     "history of 5-40 steps: mk (node handle via tree[i] / tree[-k] / tree.node(i) / tree[a:b:c] / iteration / "
     "parent() / children() / Node.branch(); paths from get_paths; branches from get_branches; compartments "
     "from get_segments; hand-built Path/Branch/Compartment), index (int, negative, slice on a path or branch), "
-    "write (type/x/y/z/r through a Tree.Node handle), write_owner (column write on the owner side of a detached "
+    "write (type/x/y/z/r, and pid = re-parenting, through a Tree.Node handle), write_owner (column write on the owner side of a detached "
     "object or a copy), copy, detach, adj. After EVERY step every live handle is read through all its accessors "
     "and compared with the mirror model. Distinct = distinct event-log digest; non-trivial = >= 3 steps with at "
     "least one write performed while >= 2 handles were live."
@@ -49,7 +49,9 @@ ASSUMPTIONS = [
     "writes are issued only through node handles obtained from a tree (Tree.Node), as the statement says, or "
     "directly on the owner's columns; a write through a path's/branch's own node handle is not covered by the "
     "statement and is not exercised",
-    "only type, x, y, z, r are written: writing id/pid would change the topology the other views were built from",
+    "type, x, y, z, r and (through tree node handles only) pid are written; a pid write re-parents a non-root node "
+    "to a node outside its own subtree, so the owner stays a tree; views made earlier keep referring to the rows "
+    "they were made from; id is never written",
     "a path/branch is identified by the index array it carries; that array must be a parent->child chain of the tree",
     "local id()/pid() numbering of a path and the id/pid of a detached object are not compared (the statement is "
     "about the attributes of the nodes referred to)",
@@ -87,7 +89,7 @@ def gen_step(rng: Prng) -> dict:
     s: dict = {"k": k, "t": rng.below(64), "h": rng.below(64)}
     if k == "mk":
         s["what"] = rng.weighted([("getitem", 3), ("node", 1), ("slice", 2), ("iter", 1), ("parent", 2),
-                                  ("children", 2), ("nbranch", 1), ("paths", 3), ("branches", 4), ("segs", 3),
+                                  ("children", 3), ("nbranch", 2), ("paths", 3), ("branches", 4), ("segs", 3),
                                   ("handpath", 2), ("handbranch", 1), ("handseg", 1)])
         s["i"] = rng.randint(-30, 30)
         s["j"] = rng.below(64)
@@ -97,7 +99,7 @@ def gen_step(rng: Prng) -> dict:
         if s["what"] == "handpath":
             s["ids"] = [rng.below(64) for _ in range(rng.randint(1, 6))]
     elif k in ("write", "write_owner"):
-        s["col"] = rng.choice(ATTRS)
+        s["col"] = rng.choice(ATTRS) if k == "write_owner" or not rng.chance(0.18) else "pid"
         s["val"] = rng.randint(1, 4000)
         s["i"] = rng.below(64)
         s["via"] = rng.choice(["attr", "item"])
@@ -252,11 +254,12 @@ def sweep(owners: list, handles: list, deep_ix: int | None):
             segs = h["obj"]
             m = o["m"]
             n = len(m["id"])
+            pairs = h["ids"]  # flattened (parent, child) pairs as they were when the list was made
             chk(len(segs) == n - 1, "tree_segments", f"{what}: {len(segs)} segments for {n} nodes")
             if n > 1:
                 for col in ATTRS:
                     got = np.asarray(getattr(segs, col)(), dtype=np.float64).tolist()
-                    exp = [[float(m[col][m["pid"][c]]), float(m[col][c])] for c in range(1, n)]
+                    exp = [[float(m[col][pairs[2 * q]]), float(m[col][pairs[2 * q + 1]])] for q in range(n - 1)]
                     chk(got == exp, "tree_segments", f"{what}.{col}() is not the (parent, child) table")
                 if deep:
                     got = np.asarray(segs.xyz(), dtype=np.float64)
@@ -382,7 +385,7 @@ def execute(program: dict) -> dict:
                             add("path" if what == "paths" else "branch", oi, ids, ob, f"get_{what}")
                     elif what == "segs":
                         segs = tree.get_segments()
-                        add("segs", oi, [], segs, "get_segments")
+                        add("segs", oi, [v for c in range(1, n) for v in (m["pid"][c], c)], segs, "get_segments")
                         chk(len(segs) == n - 1, "tree_segments", f"get_segments: {len(segs)} segments for {n} nodes")
                         for q in range(min(len(segs), 3)):
                             c = 1 + (step["j"] + q) % (n - 1)
@@ -441,6 +444,19 @@ def execute(program: dict) -> dict:
                     h = cands[step["h"] % len(cands)]
                     col = step["col"]
                     val = step["val"] % 8 if col == "type" else f32(step["val"] / 4.0)
+                    if col == "pid":
+                        # re-parent node i to a node outside its own subtree (the root keeps no parent)
+                        mm = owners[h["o"]]["m"]
+                        i = h["ids"][0]
+                        if i == 0:
+                            world.log(si, k, "root keeps its parent")
+                            continue
+                        val = step["val"] % len(mm["id"])
+                        q = val
+                        while q != -1 and q != i:
+                            q = mm["pid"][q]
+                        if q == i:
+                            val = 0
                     if step["via"] == "attr":
                         setattr(h["obj"], col, val)
                     else:
